@@ -188,6 +188,11 @@ pub struct Obs {
     pub alive: [AtomicU64; 4],
     /// scheduler threads ever started in this run, by role
     pub started: [AtomicU64; 4],
+    /// wait slot registered by the coordinator of each role (0 = none)
+    pub slot_of_role: [AtomicUsize; 4],
+    /// whether a notify() that found the registered thread was issued to the coordinator's slot
+    /// since it last entered park (it will then wake up - unless notify() itself is broken)
+    pub notified_since_park: [AtomicBool; 4],
     /// per-thread liveness slots for the stall detector (index = observer thread id mod NBUF)
     pub tslots: Vec<ThreadSlot>,
     fin_examined: Vec<AtomicU64>,
@@ -244,6 +249,8 @@ pub fn obs() -> &'static Obs {
         progress_marks: AtomicU64::new(0),
         alive: [AtomicU64::new(0), AtomicU64::new(0), AtomicU64::new(0), AtomicU64::new(0)],
         started: [AtomicU64::new(0), AtomicU64::new(0), AtomicU64::new(0), AtomicU64::new(0)],
+        slot_of_role: [AtomicUsize::new(0), AtomicUsize::new(0), AtomicUsize::new(0), AtomicUsize::new(0)],
+        notified_since_park: [AtomicBool::new(false), AtomicBool::new(false), AtomicBool::new(false), AtomicBool::new(false)],
         tslots: (0..NBUF).map(|_| ThreadSlot { role: AtomicU32::new(0), parked: AtomicBool::new(false), spins: AtomicU64::new(0) }).collect(),
         fin_examined: (0..MAX_TX).map(|_| AtomicU64::new(0)).collect(),
         rewinds: AtomicU64::new(0),
@@ -320,6 +327,12 @@ impl Obs {
         }
         for p in &self.started {
             p.store(0, Relaxed);
+        }
+        for p in &self.slot_of_role {
+            p.store(0, Relaxed);
+        }
+        for p in &self.notified_since_park {
+            p.store(false, Relaxed);
         }
         for t in &self.tslots {
             t.role.store(0, Relaxed);
@@ -596,12 +609,24 @@ impl Hooks for Obs {
                 self.commit_published.store(idx, Relaxed);
                 self.progress_marks.fetch_add(1, Relaxed);
             }
-            Event::Notify { .. } => {
+            Event::Notify { slot, had_thread } => {
                 self.notifies.fetch_add(1, Relaxed);
+                if had_thread {
+                    for role in 2..4 {
+                        if self.slot_of_role[role].load(Relaxed) == slot {
+                            self.notified_since_park[role].store(true, Relaxed);
+                        }
+                    }
+                }
+            }
+            Event::Register { slot } => {
+                let role = TL_ROLE.with(|r| r.get()) as usize;
+                self.slot_of_role[role & 3].store(slot, Relaxed);
             }
             Event::ParkEnter { .. } => {
                 self.park_enters.fetch_add(1, Relaxed);
                 let role = TL_ROLE.with(|r| r.get()) as usize;
+                self.notified_since_park[role & 3].store(false, Relaxed);
                 self.parked[role & 3].fetch_add(1, Relaxed);
                 self.tslots[thread_id(self) as usize % NBUF].parked.store(true, Relaxed);
             }
